@@ -180,6 +180,15 @@ fn c01_node(b: &Board, pos: &Pos, legal: &[Mv], aux: &mut Expand, st: &mut Stats
         }
         st.class("positions with all 20480 triples queried");
     }
+    if full_sweep && legal.len() <= 40 {
+        // the counting helper walks the unchecked make-move path with one reused output board
+        let want = pos.perft(2) as usize;
+        let got = b.perft_test(2);
+        if got != want {
+            return Err(format!("C01 perft_test(2) = {got} at `{}`, the reference counts {want}", pos.fen()));
+        }
+        st.class("perft_test(2) compared with the reference");
+    }
     let f = features(pos, legal);
     let nt = f.in_check || f.double_check || f.pinned || f.ep_capturer || f.castle_path_empty || f.promotion;
     for (on, name) in [
@@ -533,7 +542,7 @@ pub fn run_play(cfg: &WalkCfg, case: &PlayCase, st: &mut Stats) -> Result<(), St
         let legal = pos.legal();
         node += 1;
         match cfg.mode {
-            Mode::C01 => c01_node(&b, &pos, &legal, &mut aux, st, node % cfg.full_sweep_every == 0)?,
+            Mode::C01 => c01_node(&b, &pos, &legal, &mut aux, st, mix(case.aux, node) % cfg.full_sweep_every == 0)?,
             Mode::C02 => {
                 if node % cfg.all_moves_every == 0 {
                     for &m in &legal {
